@@ -65,7 +65,23 @@ def _unregister(func):
     return r
 
 
-_areg(lambda: emit(ev="lines-final", n=_final[0](), ops=_opsfinal[0]()))  # registered first, so it runs last
+def _last():
+    emit(ev="lines-final", n=_final[0](), ops=_opsfinal[0]())
+    # The notification Reporter of the job is a daemon thread; a daemon thread that is still inside Python code when the interpreter
+    # finalises is a known way for CPython to die with SIGSEGV at exit (seen once as rc=-11 under this wrapper).  Everything the code
+    # under test does at exit (its atexit clean-up, report_eoj) is over when this callback runs (registered first = runs last), so the
+    # wrapper may ask the thread to stop and wait for it briefly: no file, no exit status changes.
+    try:
+        mod = sys.modules.get("experimaestro.notifications")
+        inst = getattr(getattr(mod, "Reporter", None), "INSTANCE", None)
+        if inst is not None and inst.is_alive():
+            inst.stop()
+            inst.join(1.0)
+    except Exception:
+        pass
+
+
+_areg(_last)  # registered first, so it runs last
 atexit.register, atexit.unregister = _register, _unregister
 
 _sigsig = signal.signal
@@ -116,7 +132,7 @@ def _p_isfile(self, *a, **kw):
 
 def _p_unlink(self, *a, **kw):
     r = _unlink(self, *a, **kw)
-    if self.suffix in _MARK:
+    if self.suffix in _MARK or self.suffix == ".lock":  # (removal of the lock *name*: Model/RunnerLockIds)
         emit(ev="unlink", name=self.suffix)
     return r
 
